@@ -66,6 +66,13 @@ def sccs(body):
 
 
 def run(ctx, rep):
+    run_termination_rules(ctx, rep)
+    run_output_rules(ctx, rep)
+
+
+def run_termination_rules(ctx, rep):
+    """R17.1–R17.3: no channel endpoint alive at a join, blocking loops can end, every thread is joined
+    (shared with C04: a violation is a hang)"""
     f = ctx.facts()
     cg = ctx.cg()
     reach = ctx.reachable()
@@ -242,6 +249,12 @@ def run(ctx, rep):
         ok = len(pushes) == 1 and "spawn" in show_origin(b.origin(pushes[0]["args"][1]))
         rep.check(ok, "R17.3", "R17.3|dispatcher|handle_stored", "each spawned validator's handle is stored for the final join", dbi)
 
+
+
+def run_output_rules(ctx, rep):
+    f = ctx.facts()
+    cg = ctx.cg()
+    reach = ctx.reachable()
     # ---------------- R17.4 closed stdout is an error value, not a panic
     prints = sorted({path for path, bb, t, cal, c in cg.call_sites(lambda c: c == "std::io::stdio::_print", within=reach)})
     for p in prints:
